@@ -47,6 +47,7 @@ type runRec struct {
 	cleared    uint64
 	clearedT   int64
 	prerun     uint64
+	prelock    uint64 // deferred reset of this execution is about to take the task lock
 	by         string
 	done       bool
 }
@@ -88,6 +89,7 @@ func buildView(h *Hist, evs []Ev) *view {
 	calls := map[int]Ev{}
 	clearedQ := map[int][]Ev{}
 	prerunQ := map[int][]Ev{}
+	prelockQ := map[int][]Ev{}
 	for _, e := range evs {
 		v.last = e.Seq
 		switch e.K {
@@ -118,6 +120,8 @@ func buildView(h *Hist, evs []Ev) *view {
 				clearedQ[e.Task] = append(clearedQ[e.Task], e)
 			case "prerun":
 				prerunQ[e.Task] = append(prerunQ[e.Task], e)
+			case "prelock":
+				prelockQ[e.Task] = append(prelockQ[e.Task], e)
 			}
 		}
 	}
@@ -128,10 +132,16 @@ func buildView(h *Hist, evs []Ev) *view {
 		sort.Slice(tv.runs, func(a, b int) bool { return tv.runs[a].begin < tv.runs[b].begin })
 		cl := clearedQ[ti]
 		for k := range tv.runs {
+			if pl := prelockQ[ti]; k < len(pl) && pl[k].Seq > tv.runs[k].begin {
+				tv.runs[k].prelock = pl[k].Seq
+			}
 			if k < len(cl) && cl[k].Seq < tv.runs[k].begin {
 				tv.runs[k].cleared, tv.runs[k].clearedT, tv.runs[k].by = cl[k].Seq, cl[k].T, cl[k].By
 				for _, p := range prerunQ[ti] {
-					if p.Seq < cl[k].Seq {
+					// prerun and cleared of one start are recorded by the same handler
+					// goroutine; a prerun of the *other* handler (which may return without
+					// starting anything) says nothing about when this start was decided.
+					if p.Seq < cl[k].Seq && p.By == cl[k].By {
 						tv.runs[k].prerun = p.Seq
 					}
 				}
@@ -408,7 +418,13 @@ func (v *view) checkT4() []finding {
 		}
 		state := "idle"
 		for _, r := range tv.runs {
-			if r.cleared != 0 && r.cleared < last.ret && (r.end == 0 || last.call < r.end) {
+			// (the task counts as executing until the deferred reset after the function
+			// returned; the prelock hook event marks the latest point known to precede it)
+			until := r.end
+			if r.prelock != 0 {
+				until = r.prelock
+			}
+			if r.cleared != 0 && r.cleared < last.ret && (r.end == 0 || last.call < until) {
 				state = "while-running"
 			}
 		}
